@@ -104,10 +104,13 @@ Lemma step_rto_live t :
   live t -> rto (SN t) < maxRTO ->
   fst (step t ERto) = loopExit (sendData (t <| out := [] |> <| SN := rtoReset (SN t) |>) false).
 Proof.
-  intros (E & T) R. unfold step. cbn [estate set]. rewrite E. cbn [negb Z.eqb stConnected].
-  unfold rtoExpired. cbn [SN set]. rewrite T. cbn [Z.eqb tEnabled tOrphaned negb].
-  cbn [rto set]. change (rto (SN t <| tstate := tDisabled |>)) with (rto (SN t)).
-  destruct (maxRTO <=? rto (SN t)) eqn:EM; [lia|]. reflexivity.
+  intros (E & T) R.
+  assert (EM : (maxRTO <=? rto (SN t)) = false) by (apply Z.leb_gt; exact R).
+  unfold step. change (estate (t <| out := [] |>)) with (estate t). rewrite E.
+  change (negb (stConnected =? stConnected)) with false. cbv iota.
+  unfold rtoExpired. cbv zeta. change (SN (t <| out := [] |>)) with (SN t). rewrite T.
+  change (tEnabled =? tOrphaned) with false. change (negb (tEnabled =? tEnabled)) with false. cbv iota.
+  change (rto (SN t <| tstate := tDisabled |>)) with (rto (SN t)). rewrite EM. reflexivity.
 Qed.
 
 Lemma step_rto_dead t :
@@ -115,10 +118,13 @@ Lemma step_rto_dead t :
   estate (fst (step t ERto)) = stError /\
   out (fst (step t ERto)) = [mkF (sndUna (SN t)) (rcvNxt (RC t)) (Z.lor fAck fRst) 0 []].
 Proof.
-  intros (E & T) R. unfold step. cbn [estate set]. rewrite E. cbn [negb Z.eqb stConnected].
-  unfold rtoExpired. cbn [SN set]. rewrite T. cbn [Z.eqb tEnabled tOrphaned negb].
-  cbn [rto set]. change (rto (SN t <| tstate := tDisabled |>)) with (rto (SN t)).
-  destruct (maxRTO <=? rto (SN t)) eqn:EM; [|lia]. cbn. split; reflexivity.
+  intros (E & T) R.
+  assert (EM : (maxRTO <=? rto (SN t)) = true) by (apply Z.leb_le; exact R).
+  unfold step. change (estate (t <| out := [] |>)) with (estate t). rewrite E.
+  change (negb (stConnected =? stConnected)) with false. cbv iota.
+  unfold rtoExpired. cbv zeta. change (SN (t <| out := [] |>)) with (SN t). rewrite T.
+  change (tEnabled =? tOrphaned) with false. change (negb (tEnabled =? tEnabled)) with false. cbv iota.
+  change (rto (SN t <| tstate := tDisabled |>)) with (rto (SN t)). rewrite EM. split; reflexivity.
 Qed.
 
 Lemma rtoReset_fields s :
@@ -132,7 +138,7 @@ Lemma rtoReset_fields s :
 Proof.
   unfold rtoReset. cbv zeta.
   destruct (frActive (s <| tstate := tDisabled |> <| rto := rto (s <| tstate := tDisabled |>) * 2 |>)) eqn:E;
-    cbn -[Z.mul Z.quot Z.max]; rewrite ?E; repeat split; try reflexivity;
+    cbn in E; cbn -[Z.mul Z.quot Z.max]; rewrite ?E; repeat split; try reflexivity;
     destruct (Z.quot (outstanding s) 2 <? 2) eqn:E2; lia.
 Qed.
 
@@ -159,10 +165,11 @@ Proof.
   rewrite loopExit_SN, loopExit_out.
   set (t1 := t <| out := [] |> <| SN := rtoReset (SN t) |>).
   pose proof (sendData_spec t1) as S. cbv zeta in S.
-  destruct S as (LF & _ & _ & O & TS & fs & OF & DC & DCe). loopf LF. cbn in *.
+  destruct S as (LF & _ & _ & O & TS & fs & OF & DC & DCe). loopfT LF.
+  change (SN t1) with (rtoReset (SN t)) in *. change (out t1) with (@nil frame) in OF.
   destruct (rtoReset_fields (SN t)) as (F1 & F2 & F3 & F4 & F5 & F6 & F7 & F8 & F9 & F10 & F11 & F12 & F13).
   rewrite OF. cbn [app]. rewrite F3, F2 in O. rewrite F3 in DC, DCe. rewrite F11 in DCe.
-  rewrite F12, F8 in TS. cbn in TS.
+  rewrite F12, F8 in TS. change (tDisabled =? tEnabled) with false in TS. cbv iota in TS.
   repeat split; try lia; try congruence.
   - intros M. specialize (DCe M). lia.
 Qed.
